@@ -21,10 +21,10 @@ var recPktServer = ev.New("C04", "packet-server",
 		"delivers pool packets in drawn order (reorder/duplicate/drop), interleaves packets forged by an independent encoder (valid with "+
 		"arbitrary id/timestamp, wrong key, bit flip, wrong type, stale timestamp, truncated, foreign key, second client session) and clock "+
 		"advances (1 ns..90 s around 30/60 s); presented through a mirror of the service dispatch (SessionInfo -> table -> NewUnpacker -> "+
-		"UnpackInPlace) for window sizes {1,2,63,64,65,128,256,1000} x aes-128/256 x EIH on/off. Oracle: set+max reference model per client "+
+		"UnpackInPlace) for window sizes {omitted (0 -> default 256),1,2,63,64,65,128,256,1000} x aes-128/256 x EIH on/off. Oracle: set+max reference model per client "+
 		"session, bad packets must be rejected, and a second table that never sees the bad packets must give identical verdicts. "+
 		"Non-trivial: the main session saw a duplicate, an out-of-order in-window id and a 64-bit block crossing; distinct key = config + verdict string").
-	Require("dup", "ooo-in-window", "block-cross", "behind-window", "forged-bad", "stale-by-clock", "fresh-after-bad")
+	Require("dup", "ooo-in-window", "block-cross", "behind-window", "forged-bad", "stale-by-clock", "fresh-after-bad", "default-size", "default-size-ooo-in-window")
 
 type pktResult struct {
 	violation string
@@ -237,6 +237,12 @@ func runServerPlan(c pcfg, plan []step) (res pktResult) {
 	}
 	if c.Hi {
 		res.labels["hi-id-case"] = true
+	}
+	if c.Default {
+		res.labels["default-size"] = true
+		if ooo {
+			res.labels["default-size-ooo-in-window"] = true
+		}
 	}
 	res.nt = dup && ooo && cross
 	return res
